@@ -489,7 +489,7 @@ func c18Cases(seed int64, thorough bool) []c18Case {
 	}
 	if thorough {
 		// seeded variety of sizes
-		for i := 0; i < 3000; i++ {
+		for i := 0; i < 24000; i++ {
 			format := []string{"PNG", "JPEG", "WebP"}[i%3]
 			variant := map[string][]string{"PNG": {"plain", "ancillary"}, "JPEG": {"baseline", "progressive"}, "WebP": {"VP8", "VP8L", "VP8X+VP8", "VP8X+VP8L", "VP8X+ALPH+VP8"}}[format]
 			v := core.Pick(rng, variant)
